@@ -269,7 +269,7 @@ func runRingCase(ops []ringOp) (string, []string, bool) {
 
 func TestRingVsContainerRing(t *testing.T) {
 	sec := vk.Sec(t.Name())
-	vk.Check(t, 8000, 400000, func(rt *rapid.T) {
+	vk.Check(t, 8000, 200000, func(rt *rapid.T) {
 		n := rapid.IntRange(1, 60).Draw(rt, "len")
 		ops := make([]ringOp, n)
 		for i := range ops {
